@@ -166,7 +166,7 @@ def write_evidence(pid, tier, seed, mod, cx, wall, violations, known_matched, er
         "floors": cx.floors if cx else {},
         "known_findings_matched": known_matched,
         "failed_instances": [o.full_key() for o in obs if not o.ok],
-        "notes": cx.notes if cx else [],
+        "notes": (cx.notes if cx else []) + list(FactBase.renamed),
     }
     if cx:
         cov.update(cx.extra)
